@@ -176,6 +176,8 @@ func (g *ogen) value(typ attr.Type, ab *AttrB, st int, depth int, elem bool) tft
 			es := stKnown
 			if !g.o.Plan {
 				es = g.state()
+			} else if rapid.IntRange(0, 6).Draw(g.t, "unkelem") == 0 {
+				es = stUnknown // plans have no null elements, but unknown ones are allowed
 			}
 			elems[i] = g.value(x.ElemType, ab, es, depth+1, true)
 		}
@@ -197,6 +199,8 @@ func (g *ogen) value(typ attr.Type, ab *AttrB, st int, depth int, elem bool) tft
 			es := stKnown
 			if !g.o.Plan {
 				es = g.state()
+			} else if rapid.IntRange(0, 6).Draw(g.t, "unkelem") == 0 {
+				es = stUnknown
 			}
 			elems[key] = g.value(x.ElemType, ab, es, depth+1, true)
 		}
